@@ -361,13 +361,19 @@ def output_guarded_randomness() -> List[dict]:
 
 
 # ------------------------------------------------- C12: every request route of a node is gated by the node's power state
-def node_routes_gated(allow: Dict[str, str]) -> List[dict]:
+def routes_gated(base_class: str, allow: Dict[str, str]) -> List[dict]:
+    """Like node_routes_gated, for `_init_request_manager` of exactly `base_class` (Service, Application: the documented life-cycle
+    requests carry their operating-state rule; subclasses' own extra routes check inside their handlers and are not covered)."""
+    return [o for o in node_routes_gated(allow, base_class) if o["name"].startswith(f"route_gated@{base_class}:")]
+
+
+def node_routes_gated(allow: Dict[str, str], base_class: str = "Node") -> List[dict]:
     """In `_init_request_manager` of Node and its subclasses every `rm.add_request(name, RequestType(...))` on the node's own
     request manager must carry a validator (the node-is-on rule; `startup` carries node-is-off).  `allow` maps
     'Class:route' -> reason for routes that are deliberately open."""
     obs = []
     repo = Repo.get()
-    node = repo.class_by_name("Node")
+    node = repo.class_by_name(base_class)
     for fi in _functions():
         if fi.name != "_init_request_manager" or fi.cls is None or node not in fi.cls.mro():
             continue
@@ -392,4 +398,29 @@ def node_routes_gated(allow: Dict[str, str]) -> List[dict]:
                 obs.append(_ob("route_gated", name, n.lineno, "failed",
                                f"{fi.key} line {n.lineno}: the route `{route}` of {fi.cls.name}'s request manager has no validator: requests on it are "
                                f"served whatever the node's power state", "route carries a power-state validator"))
+    return obs
+
+
+# ------------------------- C11: nothing that runs between reading the mask and applying the action changes what the rules read
+def pre_timestep_keeps_rule_state(fields=("operating_state", "enabled", "deleted")) -> List[dict]:
+    """`pre_timestep` runs inside a step after the policy has read the action mask and before the chosen action is applied; it
+    must therefore not store to the attributes the permission rules (validators) read."""
+    obs = []
+    for fi in _functions():
+        if fi.name != "pre_timestep":
+            continue
+        hits = []
+        for n in ast.walk(fi.node):
+            tgts = n.targets if isinstance(n, ast.Assign) else ([n.target] if isinstance(n, (ast.AugAssign, ast.AnnAssign)) else [])
+            for t in tgts:
+                for sub in ast.walk(t):
+                    if isinstance(sub, ast.Attribute) and isinstance(sub.ctx, ast.Store) and sub.attr in fields:
+                        hits.append(f"{ast.unparse(sub)}@L{sub.lineno}")
+        name = f"pre_timestep_rule_state@{fi.qualname}"
+        if hits:
+            obs.append(_ob("mask_window", name, fi.node.lineno, "failed",
+                           f"{fi.key} stores to {', '.join(hits)} in pre_timestep: the state a permission rule reads changes between the mask and the action",
+                           "pre_timestep does not store to rule-read state"))
+        else:
+            obs.append(_ob("mask_window", name, fi.node.lineno, "discharged", "", "pre_timestep does not store to rule-read state"))
     return obs
